@@ -73,6 +73,7 @@ def pages_term(codes, oo, ns, o):
 
 
 BAD_PAGES = "(Some [[((-9, -9, -9), ([], false))]])"
+UNOBSERVED = "([(0, {| c_del := false; c_props := []; c_refs := []; c_len := 0 |})], true)"   # C06Check.unobserved
 BAD_WRITE = "PAsk 9998 (BGet 0 []) (ORel None)"      # kind mismatch: no variant agrees
 
 _SEEN = {}
@@ -162,6 +163,22 @@ def _term(c, o):
             terms.append(("PWrite (WTxn [(%d, %s)])" if op.get("first_txn") else "PWrite (WBatch %d %s)") % (dsc, ents_term(op["ents"], l1)))
             if bad:
                 terms.append(BAD_WRITE)
+        elif k == "httpq":
+            pass                    # page 1 of a POST /query; reported with the continuation pages at the httpcont op
+        elif k == "httpcont":
+            # the whole paged HTTP query (page 1 before, continuation requests after the writes in between), rows by triples only
+            first = [j for j in range(i) if c["ops"][j]["op"] == "httpq" and c["ops"][j]["id"] == op["id"]]
+            fo = obs_of(first[0]) if first else {"err": "no first page"}
+            if "could not load predicate id" in (fo.get("err") or ""):
+                continue            # refused at the first request (unknown predicate): nothing was paged
+            if bad or fo.get("err") or fo.get("panic"):
+                ob = "(ORel %s)" % BAD_PAGES
+            else:
+                pages = list(fo.get("rpages") or []) + list(oo.get("rpages") or [])
+                ob = "(ORel (Some %s))" % vlib.coq_list([vlib.coq_list(["((%d, %d, %d), %s)" % (
+                    codes.ucode(sc.expand(r["start"], ns)), codes.ucode(sc.expand(r["pred"], ns)), codes.ucode(sc.expand(r["id"], ns)), UNOBSERVED)
+                    for r in pg]) for pg in pages])
+            terms.append("PPin %d %s" % (pids.get(op["_twin"], 9999), ob))
         elif k in ("get", "related"):
             probe, ob = probe_terms(op, oo, bad)
             if "_twin" in op:
@@ -202,12 +219,13 @@ def pin(op, at, exact, twin, phase=None):
     return p
 
 
-def with_probes(writes, probes_for, exact_for):
+def with_probes(writes, probes_for, exact_for, http_for=None):
     """interleave: after write i its probes 'now'; after every later write all earlier probes pinned.  A race op
     (writer 1 waits for the dataset lock while writer 2 commits) additionally asks its probes while writer 1 waits -
     before writer 2 starts ("pre") and after it committed ("mid") - and they are pinned to those instants afterwards."""
     ops = []
     recorded = []                       # (index of the write op, phase, probe id, probe)
+    pending = []                        # paged POST /query sessions whose continuation requests follow the next write
     for wi, w in enumerate(writes):
         widx = len(ops)
         if w["op"] == "race":
@@ -227,9 +245,22 @@ def with_probes(writes, probes_for, exact_for):
             ops.append(w)
             for (wj, ph, pj, probe) in recorded:
                 ops.append(pin(probe, wj, exact_for(wi, pj), pj, ph))
+        for (sid, twin, lim) in pending:
+            ops.append({"op": "httpcont", "id": sid, "limit": lim, "_twin": twin})
+        pending = []
         for probe in probes_for(wi):
             ops.append(probe)
             recorded.append((widx, None, len(ops) - 1, probe))
+        h = http_for(wi) if http_for else None
+        if h:
+            starts, pred, inv, scope, lim = h
+            twin = r(starts, pred, inv, scope, [lim])          # the same paged query through the store API, all pages now
+            ops.append(twin)
+            recorded.append((widx, None, len(ops) - 1, twin))
+            ops.extend(c3.hq("h%d" % wi, starts, pred, inv, scope, lim)[:1])
+            pending.append(("h%d" % wi, len(ops) - 2, lim))
+    for (sid, twin, lim) in pending:
+        ops.append({"op": "httpcont", "id": sid, "limit": lim, "_twin": twin})
     return ops
 
 
@@ -248,7 +279,12 @@ def witness_cases():
           c3.R("a", [E("e1", {}, True)], [E("e1", {"r2": ["e2", "e3"]})], txn=False),
           B("a", E("e1", {"r1": "e2"}))]
     probes3 = lambda wi: [g("e1", ["a"]), r(["e1"]), r(["e3"], inverse=True, limits=[1])] if wi < 3 else []
-    return [{"datasets": c3.DSN, "ops": with_probes(w3, probes3, lambda wi, pj: False)},
+    w4 = [B("a", E("e1", {"r1": ["e2", "e3"]}), E("e4", {"r1": ["e2", "e3"]})),
+          B("a", E("e1", {"r1": "e4"}), E("e4", {}, True)),             # both start entities rewritten between page 1 and the continuations
+          B("a", E("e1", {}))]
+    http4 = lambda wi: (["e1", "e4"], "*", False, None, 1) if wi == 0 else ((["e2", "e3"], "r1", True, ["a"], 1) if wi == 1 else None)
+    return [{"datasets": c3.DSN, "ops": with_probes(w4, lambda wi: [], lambda wi, pj: False, http4)},
+            {"datasets": c3.DSN, "ops": with_probes(w3, probes3, lambda wi, pj: False)},
             {"datasets": c3.DSN, "ops": with_probes(w1, probes, lambda wi, pj: wi % 2 == 0)},
             {"datasets": c3.DSN, "ops": with_probes(w2, probes2, lambda wi, pj: True)}]
 
@@ -273,7 +309,16 @@ def gen_case(rng, nw, npr):
         if (wi, pj) not in ex:
             ex[(wi, pj)] = rng.chance(1, 2)
         return ex[(wi, pj)]
-    return {"datasets": c3.DSN, "ops": with_probes(writes, lambda wi: probes[wi] if wi < nw - 1 else [], exact_for)}
+    https = {}
+    posted = set()      # ids posted as entities so far: their URIs are certainly asserted (the URI table is not versioned:
+    for wi in range(nw - 1):    # a start point asserted only later would change what "the same query" means)
+        for _, es in c3._sets(writes[wi]):
+            posted.update(e["id"] for e in es)
+        if rng.chance(1, 3) and len(posted) >= 2:
+            starts = sorted(posted)
+            rng.shuffle(starts)
+            https[wi] = (starts[:rng.range(2, 3)], rng.choice(["*"] + c3.PREDS), rng.chance(1, 2), rng.choice(c3.SCOPES), rng.choice([1, 1, 2]))
+    return {"datasets": c3.DSN, "ops": with_probes(writes, lambda wi: probes[wi] if wi < nw - 1 else [], exact_for, lambda wi: https.get(wi))}
 
 
 def gen(rng, tier):
@@ -332,6 +377,8 @@ def tags(c, o):
         t.append("has-txn")
     if any(op["op"] == "race" for op in c["ops"]):
         t.append("has-race")
+    if any(op["op"] == "httpq" for op in c["ops"]):
+        t.append("http-paging-across-writes")
     if any(op.get("at", {}).get("exact") for op in c["ops"]):
         t.append("exact-instant")
     if any(op["op"] == "related" and op.get("inverse") for op in c["ops"]):
